@@ -87,13 +87,38 @@ def addr(case, who):
     return own if who == 0 else foreign
 
 
-def render_event(case, kind, who, d):
+def dir_name(d, form):
+    """control-spec: HsDir = LongName / Fingerprint; form 0 = '$FP', form 1 = '$FP~nickname'"""
+    return dir_fp(d) + ('~relay%d' % d if form else '')
+
+
+def op_form(op):
+    return op[4] if len(op) > 4 else 0
+
+
+def render_event(case, kind, who, d, form=0):
     a = addr(case, who)
+    nm = dir_name(d, form)
     if kind == 'UPLOAD':
-        return '650 HS_DESC UPLOAD %s UNKNOWN %s descid%d HSDIR_INDEX=AB%02d' % (a, dir_fp(d), d, d)
+        return '650 HS_DESC UPLOAD %s UNKNOWN %s descid%d HSDIR_INDEX=AB%02d' % (a, nm, d, d)
     if kind == 'UPLOADED':
-        return '650 HS_DESC UPLOADED %s UNKNOWN %s' % (a, dir_fp(d))
-    return '650 HS_DESC FAILED %s UNKNOWN %s REASON=UPLOAD_REJECTED' % (a, dir_fp(d))
+        return '650 HS_DESC UPLOADED %s UNKNOWN %s' % (a, nm)
+    return '650 HS_DESC FAILED %s UNKNOWN %s REASON=UPLOAD_REJECTED' % (a, nm)
+
+
+def with_names(ops, mode, salt=0):
+    """name the directories of a history: all fingerprint-only, all long form, or (mixed) a form per event"""
+    out = []
+    for j, o in enumerate(ops):
+        if o[0] != 'ev':
+            out.append(o)
+        elif mode == 'short':
+            out.append(list(o[:4]))
+        elif mode == 'long':
+            out.append(list(o[:4]) + [1])
+        else:
+            out.append(list(o[:4]) + [(salt * 31 + j * 17 + (j * j) // 3) % 2])
+    return out
 
 
 # ------------------------------------------------------------------ the Python mirror of Spec/C15.v's
@@ -104,9 +129,14 @@ def spec_preds(case):
     answered = False
     early = case['early']
     pa = pd = False
+    forms = {}
     for op in case['ops']:
         if op[0] == 'ev':
-            _, k, who, d = op
+            forms.setdefault(op[3], set()).add(op_form(op))
+    pf = any(len(v) > 1 for v in forms.values())
+    for op in case['ops']:
+        if op[0] == 'ev':
+            _, k, who, d = op[:4]
             own = who == 0
             if k == 'UPLOADED' and not own and d in A:
                 pa = True
@@ -266,7 +296,7 @@ class P(core.Prop):
         try:
             for op in case['ops']:
                 if op[0] == 'ev':
-                    w.send(render_event(case, op[1], op[2], op[3]))
+                    w.send(render_event(case, op[1], op[2], op[3], op_form(op)))
                 elif op[0] == 'reply':
                     if case['svc'] == 'eph':
                         key = KEY3 if case['ver'] == 3 else KEY2
@@ -317,7 +347,7 @@ class P(core.Prop):
     @staticmethod
     def _op(op):
         if op[0] == 'ev':
-            return C('Ev', KCOQ[op[1]], N(1 if op[2] == 0 else 2), N(op[3]))
+            return C('Ev', KCOQ[op[1]], N(1 if op[2] == 0 else 2), N(2 * op[3] + op_form(op)))   # a NAME, see Spec/C15.v
         return 'Reply' if op[0] == 'reply' else 'Reject'
 
     def to_coq(self, case, obs):
@@ -368,9 +398,11 @@ class P(core.Prop):
             svc = 'eph_auth'
         elif early and i % 16 == 11:
             svc = 'fs_auth'
+        # directory names: fingerprint-only / long form ($FP~nick) / both forms for one directory (every 9th case)
+        names = 'mixed' if i % 9 == 4 else ('long' if i % 2 else 'short')
         return {'svc': svc, 'ver': 3 if i % 3 else 2, 'await': [None, False][i % 2] if not aw else True,
                 'early': bool(early) if svc != 'eph' else False,
-                'shared': i % 4 == 1, 'progress': i % 7 != 3, 'ops': ops}
+                'shared': i % 4 == 1, 'progress': i % 7 != 3, 'ops': with_names(ops, names, i)}
 
     @staticmethod
     def _own_seqs(ndirs, maxlen):
@@ -496,8 +528,10 @@ class P(core.Prop):
                 ops = evs + [ans]
             else:
                 ops = evs
+            names = rng.choice(['short', 'long', 'long', 'long', 'mixed'])
             out.append({'svc': svc, 'ver': rng.choice([2, 3, 3]), 'await': rng.choice([None, False, True, True]),
-                        'early': early, 'shared': rng.random() < 0.3, 'progress': rng.random() < 0.7, 'ops': ops})
+                        'early': early, 'shared': rng.random() < 0.3, 'progress': rng.random() < 0.7,
+                        'ops': with_names(ops, names, rng.randrange(1000))})
         return out
 
     def shrink_candidates(self, case):
@@ -519,7 +553,10 @@ class P(core.Prop):
         ds = sorted(set(o[3] for o in ops if o[0] == 'ev'))
         if ds and ds != list(range(1, len(ds) + 1)):
             m = {d: i + 1 for i, d in enumerate(ds)}
-            yield dict(case, ops=[[o[0], o[1], o[2], m[o[3]]] if o[0] == 'ev' else o for o in ops])
+            yield dict(case, ops=[[o[0], o[1], o[2], m[o[3]]] + o[4:] if o[0] == 'ev' else o for o in ops])
+        if any(o[0] == 'ev' and op_form(o) for o in ops):
+            yield dict(case, ops=with_names(ops, 'short'))
+            yield dict(case, ops=with_names(ops, 'long'))
 
     finding_preds = {
         'foreign_uploaded_shared_dir': lambda c, o: spec_preds(normalise(c))[0],
